@@ -15,6 +15,7 @@ EXPLANATION = (
     "not decided."
     " Added after seed round 6: P7 the problog_export wrapper fails only under except UnifyError: the truth value of the function's result never decides success."
     " Added after seed round 7: P8 the nondeterministic export wrapper appends every successfully converted solution."
+    " Added after seed round 10: P9 logic.list2term encodes every element it puts into the list spine with py2pl (or with what py2pl does for an element of the kind established on that path)."
 )
 TECHNIQUE = "static analysis: writer/reader table agreement and codec-shape rules on the AST"
 LEVEL_TEXT = EXPLANATION
@@ -461,6 +462,47 @@ def rule_p8(repo, col):
                "findall over the exported predicate no longer sees the function's results" % (bad[0] if bad else ""), construct="nondet wrapper: solution filtered", function="problog_export_nondet.__call__")
 
 
+def rule_p9(repo, col):
+    """logic.list2term - what an exported function's '-list' result goes through - encodes every element with py2pl, the one Python -> Prolog encoder (strings get their
+    delimiters there; P2 decides that the decoder removes exactly those)"""
+    from .. import dtable
+
+    f = repo.func("problog.logic", "list2term")
+    m = f.module
+    loops = [n for n in walk_no_nested(f.node) if isinstance(n, ast.For) and isinstance(n.target, ast.Name)]
+    if len(loops) != 1:
+        raise AnalysisError("list2term: element loop not found")
+    lp = loops[0]
+    el = lp.target.id
+    n = 0
+    bad = []
+    unknown = []
+    for p_ in dtable.extract_block(lp.body, opaque_loops=True):
+        cells = [a for fn, a, _ in p_.calls if fn == "Term" and len(a) == 3 and a[0] in ("'.'", '"."')]
+        for a in cells:
+            n += 1
+            enc = a[1].replace(" ", "")
+            if enc == "py2pl(%s)" % el:
+                continue
+            conds = [(s_.replace(" ", ""), t_) for s_, t_, _ in p_.conds]
+            is_term = ("isinstance(%s,Term)" % el, True) in conds
+            is_list = ("isinstance(%s,list)" % el, True) in conds or ("type(%s)==list" % el, True) in conds
+            is_num = any(t_ and s_ in ("isinstance(%s,(int,float))" % el, "isinstance(%s,int)" % el, "isinstance(%s,float)" % el, "type(%s)==int" % el, "type(%s)==float" % el) for s_, t_ in conds)
+            if (enc == el and is_term) or (enc == "%s(%s)" % (f.name, el) and is_list) or (enc == "Constant(%s)" % el and is_num):
+                continue  # what py2pl does for that kind of element
+            if enc == el or enc == "Constant(%s)" % el:
+                bad.append("%s%s" % (a[1], (" when " + ", ".join("%s is %s" % (s_[:40], t_) for s_, t_, _ in p_.conds)) if p_.conds else ""))
+            else:
+                unknown.append(a[1][:80])
+    if unknown and not bad:
+        raise AnalysisError("list2term: element encoding %s not understood" % unknown[0])
+    if n == 0:
+        raise AnalysisError("list2term: construction of the list cell not found")
+    col.decide("P9", m, lp, not bad, "list2term encodes every element with py2pl", "list2term stores an element as %s instead of py2pl(%s): a Python string returned in a list by an exported "
+               "function loses its string delimiters and arrives as an atom - unifying the result with [\"s0\"] fails and with [s0] succeeds" % ("; ".join(bad[:2]), el),
+               construct="list2term: element encoding", function="list2term")
+
+
 def run(repo, col):
     col.rule("P1", "constructor coverage py2pl <-> pl2py")
     col.rule("P2", "string codec removes exactly the delimiter pair that was added")
@@ -478,3 +520,5 @@ def run(repo, col):
     rule_p7(repo, col)
     col.rule("P8", "non-deterministic exports: every returned solution is an answer")
     rule_p8(repo, col)
+    col.rule("P9", "list2term encodes its elements with py2pl")
+    rule_p9(repo, col)
